@@ -8,14 +8,19 @@ struct C16 : DaemonScenario {
   std::string which; int trigger_ino = 0; std::vector<MsgSpec> concurrent; int todo_scans_done = 0; int links_done = 0;
   C16(const Config &c) : DaemonScenario(c) { which = c.get("scenario", "A"); clock_frozen = true; mon.insert("C16"); }
   void setup(World &w) override {
-    // A: daemon start-up scan races with one injector.  B: quiescent daemon, two injectors at once.
+    // A: daemon start-up scan races with one injector.  B: quiescent daemon, two injectors at once.  D: quiescent daemon, one injector and a HUP.
     // C: daemon starts with older todo entries present and one injector races with the scan.
     if (which == "A" || which == "C") { concurrent = tosend; tosend.clear(); }
     if (which == "C") { auto cat = msg_catalogue(); std::vector<MsgSpec> pre; for (auto &x : cat) if (x.name == "l1b" || x.name == "r1b") pre.push_back(x); tosend = pre; inject_mode = "pre"; }
-    if (which == "B") inject_mode = "conc";
+    if (which == "B" || which == "D") inject_mode = "conc";   // D: like B with one injector, and a HUP reaches the daemon at the moment the injector starts
     DaemonScenario::setup(w);
     trigger_ino = w.k.lookup(w.k.root, "/var/qmail/queue/lock/trigger");
     if (which == "A" || which == "C") { start_daemon(w); for (auto &m : concurrent) start_injector(w, m); restarts = 1; }
+  }
+  bool hup_sent = false;
+  bool on_quiescent(World &w) override {
+    if (which == "D" && !hup_sent && !tosend.empty() && injectors.empty() && alive(w, sendpid)) { hup_sent = true; Proc *sp = proc(w, sendpid); if (sp) { w.raise_sig(*sp, SIGHUP); history += " HUP"; w.counters["signal_HUP"]++; } }
+    return DaemonScenario::on_quiescent(w);
   }
   bool is_trigger_fd(World &w, Proc &p, int fd) { Ofd *o = w.O(p, fd); return o && o->ino == trigger_ino; }
   bool local_op(World &w, Proc &p, const Req &r) override {
